@@ -332,6 +332,54 @@ def run(scenario, world):
         elif o == 'make_gen':
             gens[op['name']] = rng_seam._REAL_DEFAULT_RNG(op['seed'])
             twins[op['name']] = rng_seam._REAL_DEFAULT_RNG(op['seed'])
+        elif o == 'replacement_probe':
+            # D4 for the choice of posterior draws: the samples of one call
+            # are backed by INDEPENDENT draws from the posterior, so with as
+            # many samples as there are posterior rows a row is repeated in
+            # most calls.  K calls without a single repeat have probability
+            # (n!/n^n)^K < 1e-30 under the stated process; a procedure that
+            # draws without replacement never shows one.
+            h = op['entry']
+            if h not in entries or entries[h].kind != 'postpred':
+                continue
+            e = entries[h]
+            spec = e.recipe['posterior']
+            n_rows = spec.get('chains', 2) * spec.get('draws', 3)
+            if n_rows < 3 or n_rows > 8:
+                continue
+            import math
+            p_none = math.factorial(n_rows) / float(n_rows ** n_rows)
+            k_calls = int(math.ceil(-30 * math.log(10) / math.log(p_none)))
+            inner = e.obj._predictive_model
+            orig = inner.sample
+            seen_repeat = False
+            n_done = 0
+            try:
+                for s_ in range(k_calls):
+                    rows = []
+
+                    def spy(parameters, *a_, **k_):
+                        rows.append(tuple(np.asarray(
+                            parameters, dtype=float).tolist()))
+                        return orig(parameters, *a_, **k_)
+                    inner.sample = spy
+                    r_ = call(e.obj.sample, [1.0], n_rows, None, 5000 + s_)
+                    if is_exc(r_) or len(rows) != n_rows:
+                        break
+                    n_done += 1
+                    if len(set(rows)) < len(rows):
+                        seen_repeat = True
+                        break
+            finally:
+                del inner.sample
+            if n_done == k_calls and not seen_repeat:
+                raise Violation(
+                    'D4.without_replacement', 'never_a_repeat',
+                    'postpred: %d calls with n_samples = %d = number of '
+                    'posterior rows, not one call used a row twice '
+                    '(probability %.1e under independent draws)' % (
+                        k_calls, n_rows, p_none ** k_calls), step)
+            world.probe('posterior_rows_repeat_as_expected')
         elif o == 'bad_draw':
             # a draw with an invalid seed (negative) raises; it must not
             # leave anything behind that later draws pick up
@@ -681,6 +729,10 @@ def generate(rng, index, tier):
                                else 0.06):
                 ops.append({'op': 'bad_draw', 'entry': h,
                             'args': rng.randint(0, 1)})
+    for i_, r_ in enumerate(recipes):
+        if r_['kind'] == 'postpred' and rng.random() < 0.3:
+            ops.insert(rng.randint(0, len(ops)),
+                       {'op': 'replacement_probe', 'entry': 'e%d' % i_})
     for i, op in enumerate(ops):
         op['eid'] = i
     return {'property': PROP, 'recipes': recipes, 'ops': ops,
